@@ -518,8 +518,16 @@ func (m *readerModel) step(rt *rapid.T) {
 	}
 }
 
-func TestReaders(t *testing.T) {
-	harness.Rapid(t, 160000, 3000000, func(rt *rapid.T, c *harness.Case) {
+func TestReaders(t *testing.T) { harness.Rapid(t, 160000, 3000000, propReaders) }
+
+// native fuzzing of the same properties (thorough tier): the fuzzer's bytes
+// drive rapid's draws
+func FuzzReaders(f *testing.F) { f.Fuzz(harness.MakeFuzz(propReaders)) }
+func FuzzWriters(f *testing.F) { f.Fuzz(harness.MakeFuzz(propWriters)) }
+func FuzzAhead(f *testing.F)   { f.Fuzz(harness.MakeFuzz(propAhead)) }
+
+func propReaders(rt *rapid.T, c *harness.Case) {
+	{
 		n := genNode(rt, rapid.IntRange(0, 3).Draw(rt, "depth"), "n")
 		c.Set("expr", n)
 		b := &built{}
@@ -546,7 +554,7 @@ func TestReaders(t *testing.T) {
 		if m.unaligned {
 			c.Label("unaligned")
 		}
-	})
+	}
 }
 
 // byteViews checks the io.Reader style views on a fresh clone.
@@ -692,8 +700,10 @@ func byteViews(rt *rapid.T, c *harness.Case, m *readerModel) {
 // ---------------------------------------------------------------------------
 // writers
 
-func TestWriters(t *testing.T) {
-	harness.Rapid(t, 16000, 400000, func(rt *rapid.T, c *harness.Case) {
+func TestWriters(t *testing.T) { harness.Rapid(t, 16000, 400000, propWriters) }
+
+func propWriters(rt *rapid.T, c *harness.Case) {
+	{
 		var model bits
 		var out bytes.Buffer
 		w := bitio.NewIOBitWriter(&out)
@@ -756,7 +766,7 @@ func TestWriters(t *testing.T) {
 		c.Check(err == nil, "flush-error", "Flush: %v", err)
 		c.Check(bytes.Equal(out.Bytes(), model.pack()), "flush-bytes", "after Flush: %x want %x (zero padded)", out.Bytes(), model.pack())
 		c.SetNonTrivial(unaligned && steps > 1)
-	})
+	}
 }
 
 // ---------------------------------------------------------------------------
@@ -861,8 +871,8 @@ func TestGrid64(t *testing.T) {
 
 type faultyRS struct {
 	r        *bytes.Reader
-	shortMax int  // >0: deliver at most this many bytes per Read
-	failAt   int  // Read call number that fails once (-1: never)
+	shortMax int // >0: deliver at most this many bytes per Read
+	failAt   int // Read call number that fails once (-1: never)
 	calls    int
 	failed   bool
 }
@@ -883,8 +893,10 @@ func (f *faultyRS) Read(p []byte) (int, error) {
 
 func (f *faultyRS) Seek(off int64, whence int) (int64, error) { return f.r.Seek(off, whence) }
 
-func TestAhead(t *testing.T) {
-	harness.Rapid(t, 80000, 2000000, func(rt *rapid.T, c *harness.Case) {
+func TestAhead(t *testing.T) { harness.Rapid(t, 80000, 2000000, propAhead) }
+
+func propAhead(rt *rapid.T, c *harness.Case) {
+	{
 		data := genBytes(rt, "data")
 		minRead := rapid.OneOf(rapid.IntRange(0, 16), rapid.IntRange(0, 64)).Draw(rt, "minread")
 		short := 0
@@ -964,7 +976,7 @@ func TestAhead(t *testing.T) {
 			c.Label("short-reads")
 		}
 		c.SetNonTrivial(reads >= 2 && (seekEndInside || minRead > 1) && L > int64(minRead))
-	})
+	}
 }
 
 // fixed regression seeds of repaired defects
